@@ -189,3 +189,10 @@ def run(ctx: Ctx, rep: Report, tier: str):
     definition_holds(ctx, rep, "C03.R10", "SideState.needs_sync", "a one-sided change is not mirrored, or an unchanged side is mirrored again")
     definition_holds(ctx, rep, "C03.R10", "SyncEntry.is_path_change", "a rename is not recognised as one (it is mirrored as delete + create, or not at all)")
     definition_holds(ctx, rep, "C03.R10", "SyncEntry.is_creation", "a new object is not created on the peer, or an existing one is created again")
+    from rules.common import embrace_dispatch
+    rep.rule("C03.R11", "every kind of one-sided change has its arm in embrace_change and is routed to it under exactly its own condition (C01.R16)", 3)
+    embrace_dispatch(ctx, rep, "C03.R11")
+    from rules.common import uploads_read_the_changed_sides_download
+    rep.rule("C03.R12", "what is mirrored is the changed side's content: upload_synced / _create_synced open sync[changed].temp_file only; download_changed re-keys the "
+             "temp file to the current content before it looks at it and reuses it only when it exists", 5)
+    uploads_read_the_changed_sides_download(ctx, rep, "C03.R12")
